@@ -195,6 +195,14 @@ func effectsPass(w *World, id string) []*OwnOb {
 		out = append(out, checkWrapper(w)...)
 	case "C08":
 		out = append(out, checkMainsStdout(w)...)
+	case "C15":
+		out = append(out, checkMainsStdout(w, "cmd/bkld")...)
+	case "C16":
+		out = append(out, checkMainsStdout(w, "cmd/bkli", "cmd/bkld")...)
+	case "C17":
+		out = append(out, checkMainsStdout(w, "cmd/bklr")...)
+	case "C03":
+		out = append(out, checkMainsStdout(w, "cmd/bkl")...)
 	}
 	return out
 }
@@ -483,9 +491,12 @@ func exprString0(s ast.Stmt) string {
 
 // checkMainsStdout: C08 — in each tool's main, nothing is written to stdout before the final write, and nothing that
 // can fail follows it (so stdout is either complete or empty); fatal writes to stderr and exits 1.
-func checkMainsStdout(w *World) []*OwnOb {
+func checkMainsStdout(w *World, dirs ...string) []*OwnOb {
 	var out []*OwnOb
-	for _, dir := range []string{"cmd/bkl", "cmd/bkld", "cmd/bkli", "cmd/bklr"} {
+	if len(dirs) == 0 {
+		dirs = []string{"cmd/bkl", "cmd/bkld", "cmd/bkli", "cmd/bklr"}
+	}
+	for _, dir := range dirs {
 		fi := findFunc(w, dir+":main")
 		if fi == nil {
 			continue
@@ -542,6 +553,41 @@ func checkMainsStdout(w *World) []*OwnOb {
 				return true
 			})
 		}
+		// every path through main ends in the output statement or in a failure exit: no `return`, and os.Exit(0) only in
+		// the version branch (a silent early exit would be "success" without the output)
+		okPaths := true
+		whyPaths := ""
+		var walk func(n ast.Node) bool
+		walk = func(nd ast.Node) bool {
+			switch y := nd.(type) {
+			case *ast.FuncLit:
+				return false
+			case *ast.ReturnStmt:
+				okPaths = false
+				whyPaths = "return at " + posStr(w, y.Pos())
+			case *ast.CallExpr:
+				if extFuncName(y, info) == "os.Exit" && len(y.Args) == 1 {
+					if exprString(y.Args[0]) != "1" {
+						inVersion := false
+						for _, st := range stmts {
+							if y.Pos() >= st.Pos() && y.Pos() <= st.End() && insideExitBranch(st, y.Pos()) {
+								if ifs, ok := st.(*ast.IfStmt); ok && strings.Contains(exprString(ifs.Cond), "BKL_VERSION") {
+									inVersion = true
+								}
+							}
+						}
+						if !inVersion {
+							okPaths = false
+							whyPaths = "os.Exit(" + exprString(y.Args[0]) + ") at " + posStr(w, y.Pos())
+						}
+					}
+				}
+			}
+			return true
+		}
+		ast.Inspect(fi.Decl.Body, walk)
+		out = append(out, &OwnOb{Key: fi.Key + ".effects[every path ends in the output or a failure exit]", Kind: "effects", OK: okPaths, Pos: pos,
+			Why: "main must not return or exit with status 0 before the output is written (" + whyPaths + "): the run would succeed without producing its result"})
 		out = append(out, &OwnOb{Key: fi.Key + ".effects[stdout is written last]", Kind: "effects", OK: okLast, Pos: pos,
 			Why: "the output must be written by the last statement of main (followed only by its error check), after every evaluation succeeded"})
 		out = append(out, &OwnOb{Key: fi.Key + ".effects[no early stdout]", Kind: "effects", OK: okEarly, Pos: pos,
